@@ -22,6 +22,7 @@ REPL = "a\"'\\{}()~|*/ \n_0^."
 PUMP_UNITS = TOKENS + ["(a", "a|", "a~", "(a|", "(a~", '"\\', "/*/", "/* ", "/*x*", "*/", "'a'..", "#t=", "a{", "a{1,", "a{1}", "PUSH(a", "PEEK[", "PEEK[1..", "PEEK[1..2]", "!(", "&(", "a?", "a*",
                         "a = {", "a = { b }", "a = { b }\n", "//", "///", "//!", "//!\n", "///\n", "\\", '"', "'", '"\\u{', '"\\x', "\n", " ", "\t", "\r\n", "\r", "\u00e9", "_", "^", "^\"", "..", "0", "-"]
 PUMP_CLOSERS = [("(", ")"), ("PUSH(", ")"), ("/*", "*/"), ("/* ", " */"), ("!(", ")"), ("(a|", ")"), ("(a~", ")"), ("(a~(", "))"), ("((", ")|a)"), ("{", "}"), ("[", "]")]
+PUMP_POSTFIX = ["?", "*", "+", "{2}", "{1,}", "{,2}", "{1,2}", "{0}", "{1}", "?*", "+?", "*+", "{2}+", " ~ a", " | a", "~a+", "|a*", "?~a", "{2}|a", " ~ (a)", "+ ~ a+"]
 PUMP_COUNTS = {"quick": (25, 400), "thorough": (25, 400, 6000)}
 
 
@@ -67,12 +68,12 @@ def load(text: str, optimised: bool):
         return "exc", f"{type(exc).__name__}: {str(exc)[:80]}"
 
 
-def check_texts(texts, family, loader=None):
+def check_texts(texts, family, loader=None, optimisers=(False, True)):
     fails = []
     stats = {"evaluations": 0, "accepted": 0, "rejected": 0}
     loader = loader or load
     for text in texts:
-        for optimised in (False, True):
+        for optimised in optimisers:
             out, detail = loader(text, optimised)
             stats["evaluations"] += 1
             if out == "parser":
@@ -195,7 +196,26 @@ def _chunk(payload):
                 texts += [u * k, "r = { " + u * k, "r = { " + u * k + " }", 'r = { "x" } ' + u * k, u * k + ' r = { "x" }']
             for o, c in closers:
                 texts += ["r = { " + o * k + "a" + c * k + " }", "r = { " + o * k + "a" + c * (k - 1) + " }", "r = { " + o * (k - 1) + "a" + c * k + " }", o * k + c * k + ' r = { "x" }']
+        for k in counts:
+            for u in (PUMP_POSTFIX if units and units[0] == TOKENS[0] else []):
+                # chains of postfix operators and operator/operand runs after one operand
+                texts += ["r = { a" + u * k + " }", 'r = @{ "a"' + u * k + ' ~ "b" }', "r = { (a" + u * k + ")+ }"]
         return check_texts(texts, "pumped", loader=load_limited)
+    if kind == "long-numbers":
+        # numbers with many digits at every place a number may stand (Python refuses to convert more than 4300 digits)
+        sites = ["r = {{ a{{{n}}} }}", "r = {{ a{{{n},}} }}", "r = {{ a{{,{n}}} }}", "r = {{ a{{1,{n}}} }}", "r = {{ a{{{n},{n}}} }}"]
+        slices = ["r = {{ PEEK[{n}..] }}", "r = {{ PEEK[..{n}] }}", "r = {{ PEEK[-{n}..] }}", "r = {{ PEEK[..-{n}] }}", "r = {{ PEEK[{n}..{n}] }}"]
+        nums = [d * k for d in ("9", "1", "0") for k in (1, 10, 20, 100, 1000, 4300, 4301, 5000, 20000)] + ["0" * k + "1" for k in (20, 4300, 5000)]
+        st1, f1 = check_texts([t.format(n=n) for t in sites for n in nums], "long-numbers", optimisers=(False,))   # with an optimizer: the listed huge-count finding
+        st2, f2 = check_texts([t.format(n=n) for t in slices for n in nums], "long-numbers")
+        return {k: st1[k] + st2[k] for k in st1}, f1 + f2
+    if kind == "odd-characters":
+        chars = ["\ud800", "\udfff", "\ud800\udc00", "\x00", "\x7f", "\x85", "\u2028", "\ufeff", "\uffff", "\U0010ffff", "\u00e9", "\uff10", "\u0663", "\u00b2", "\u2167", "\u0130", "\u212a", "\u00a0", "\x0b", "\x0c", "\r", "\x1c"]
+        sites = ['{c} = {{ "a" }}', 'r{c} = {{ "a" }}', "r = {{ {c} }}", 'r = {{ "{c}" }}', "r = {{ '{c}' }}", "r = {{ '{c}'..'{c}' }}", 'r = {{ "\\x{c}{c}" }}', 'r = {{ "\\x4{c}" }}', 'r = {{ "\\u{{{c}{c}}}" }}',
+                 'r = {{ "\\u{{4{c}}}" }}', 'r = {{ "\\{c}" }}', "r = {{ '\\{c}' }}", "r = {{ a{{{c}}} }}", "r = {{ a{{1,{c}}} }}", "r = {{ a{{{c}1}} }}", "r = {{ PEEK[{c}..] }}", "r = {{ PEEK[..{c}] }}", "r = {{ PEEK[1{c}..] }}",
+                 "r = {{ #{c} = a }}", "r = {{ #t{c} = a }}", "r = {{ a }} //{c}", "r = {{ a }} /*{c}*/", "r = {{ a }} /*{c}", "//!{c}\nr = {{ a }}", "///{c}\nr = {{ a }}", "r ={c} {{ a }}", "r = {c}{{ a }}", 'r = {{ ^"{c}" }}',
+                 'r = {{ PUSH_LITERAL("{c}") }}', "r = {{ a ~{c} b }}", "r = {{ a{c}b }}", "{c}", "r = {{ a }}{c}", 'r = {{ "a{c}', "r = {{ 'a'..'{c}' }}"]
+        return check_texts([t.format(c=c) for t in sites for c in chars], "odd-characters")
     if kind == "huge-counts":
         texts = ['a = { "x"{99999999999999999999} }', 'a = { "x"{4294967296} }', 'a = { "x"{,4294967296} }', 'a = { "x"{4294967296,} }', 'a = { "x"{1,4294967296} }']
         return check_texts(texts, "huge-counts", loader=load_limited)
@@ -205,7 +225,7 @@ def _chunk(payload):
 def run(tier: str) -> int:
     b = BOUNDS[tier]
     rep = common.Report("C11", tier, "fault_enumeration")
-    payloads = [("escapes",), ("semantic",), ("huge-counts",)]
+    payloads = [("escapes",), ("semantic",), ("huge-counts",), ("long-numbers",), ("odd-characters",)]
     for i in range(0, len(PUMP_UNITS), 3):
         payloads.append(("pumped", PUMP_UNITS[i:i + 3], [], PUMP_COUNTS[tier]))
     for oc in PUMP_CLOSERS:
@@ -270,6 +290,10 @@ def run(tier: str) -> int:
         "rule": f"(a) every string over the {len(ALPHABET)}-character grammar alphabet {ALPHABET!r} up to length N; (b) every sequence of up to K tokens from a {len(TOKENS)}-token alphabet joined by spaces (no rule frame); "
                 "(c) for every bundled .pest file every prefix (truncation at every offset) and every single-character deletion (thorough: also every replacement/insertion from a 17-character set at every offset); "
                 "(d) escape forms: \\x with 0-3 digits, \\u{..} with 0-7 digits, unterminated forms, values above U+10FFFF, surrogates, reversed ranges; (e) texts that are syntactically fine but semantically odd (undefined/duplicate/recursive rules, {0}, huge counts, deep nesting). "
+                f"(f) pumped texts: {len(PUMP_UNITS)} units (every token, openers, unterminated literal / comment / escape starts) repeated {PUMP_COUNTS[tier]} times bare, inside a rule body and around a valid rule; {len(PUMP_CLOSERS)} nested opener/closer pairs; "
+                f"{len(PUMP_POSTFIX)} postfix operator / operator-operand units chained after one operand - each load in a forked child with a 25 s deadline and a 1 GiB address space; "
+                "(g) long numbers: 1 to 20000 digits at every repetition bound (optimizer=None) and PEEK slice bound; (h) odd characters: 22 characters (lone surrogates, NUL, C1 and Unicode line separators, BOM, non-characters, "
+                "non-ASCII digits and letters with special case mappings) at 35 places of a grammar text. "
                 "Each text is loaded with optimizer=None and with the default optimizer. Oracle: a Parser or PestGrammarError; str(error) renders; a shown 'L:C' has 1 <= L <= number of lines and 0 <= C <= len(line)+1; 20 s watchdog. "
                 "distinct_nontrivial counts the texts that were accepted (the rest were rejected with a grammar error)",
         "samples": [{"text": t} for t in ["a = {", "r = { \"\\x4\" }", "a ~ | \"s\"", "//! doc"]],
